@@ -1,6 +1,6 @@
 SPECIFICATION Spec
 CONSTANT MaxSteps = 2
-CONSTANT DeepSeeds = "all"
+CONSTANT DeepSeeds = "thorough"
 CONSTANT PolicySet = "two"
 INVARIANT ValuesConform
 INVARIANT ResultConforms
